@@ -215,8 +215,8 @@ def first_diff(a, b):
 # ------------------------------------------------------------------------------------------
 # recorded finding F12 (known_findings.d/C14.json): class predicate on the implementation's behaviour
 # ------------------------------------------------------------------------------------------
-F12_WHAT = ("F12: a request that is not the first on its keep-alive connection was answered 503 by the proxy itself and never relayed "
-            "(hyper: 'connection was not ready' -- send_request without ready().await; patches/fix-C14-wait-upstream-ready.diff)")
+F12_WHAT = ("pairing (F12): a request that is not the first on its keep-alive connection was answered 503 by the proxy itself and never "
+            "relayed (hyper: 'connection was not ready' -- send_request without ready().await; repaired by fix commit cdcae0b)")
 
 
 def f12_class(i, x, responses, by_tag, log_text):
@@ -237,7 +237,11 @@ def f12_class(i, x, responses, by_tag, log_text):
 
 
 def known_filter(f):
-    return F12_WHAT if f.get("f12") else None
+    """suppresses only while known_findings.json lists F12 with status "known"; since fix commit cdcae0b it is "fixed",
+    so a 503 of this class is a violation again"""
+    if f.get("f12") and any(k.get("id") == "F12" for k in vplib.known_findings("C14")):
+        return F12_WHAT
+    return None
 
 
 def read_connection_log(r):
@@ -424,8 +428,9 @@ def run(ctx):
         "a '#fragment' in a request target is dropped by http::Uri before the handler sees it (observed; not part of path or query)",
         "response trailers are replaced by an empty data frame by forward_response (modelled in Relay.map_frame; not exercised: "
         "hyper's HTTP/1.1 client does not surface trailers to map_frame in this configuration)",
-        "finding F12 is a race in the real code (a send_request overtaking hyper's readiness signal): exchanges that fall into its "
-        "class are reported as KNOWN-FINDING and excluded from the comparison; they occur in a few runs per hundred pipelines",
+        "finding F12 (a send_request overtaking hyper's readiness signal: spurious 503 on pipelines, a few runs per hundred) was "
+        "repaired by fix commit cdcae0b; an exchange of that class is recognised (f12_class) and reported as a violation with its "
+        "scenario as replay -- being a race, it may need several runs of the replay to show again",
         "FIFO pairing is proved for the model's mutex protocol; the run checks it on real pipelines by tags "
         "(hyper's server also serialises the requests of one connection, so the mutex is never contended in practice)",
     ]
